@@ -85,12 +85,13 @@ const (
 	hGetRelease
 	hSnapRevert
 	hSnapWrite
+	hLookups
 	hNumOps
 )
 
 var vHistOpNames = []string{"Set", "Delete", "Flush", "Evict", "Snapshot", "SnapshotOfSnapshot", "CloseSnapshot",
 	"RemoveCollection", "SetCollection(existing)", "SetCollection(new)", "Close(store)", "Churn(other store)",
-	"VisitWithNestedOps", "Flush+Reopen", "GetItem+release", "Snapshot.FlushRevert", "Snapshot.Write"}
+	"VisitWithNestedOps", "Flush+Reopen", "GetItem+release", "Snapshot.FlushRevert", "Snapshot.Write", "Exist/Len/blockvisit"}
 
 func vNewHist(file bool, rc *vRefCounts) *vHist {
 	h := &vHist{rc: rc}
@@ -308,6 +309,30 @@ func (h *vHist) step(op int, maxSnaps int) bool {
 		vAssert("snapshot-revert-file-length", len(h.f.data) == before)
 		// the snapshot itself is now at an earlier flush; stop checking it
 		h.snaps[k].open = false
+	case hLookups:
+		if !o.open {
+			return false
+		}
+		ci := h.pickColl(o)
+		if ci < 0 {
+			return false
+		}
+		n := &o.colls[ci]
+		switch vChoose("lookup", 0, 2) {
+		case 0:
+			vTrace("Exist")
+			key := vBytes("k", 1)
+			vAssert("exist-result", n.c.Exist(key) == (n.m.find(key) >= 0))
+		case 1:
+			vTrace("Len")
+			l, err := n.c.Len()
+			vAssert("len-result", vAnd(err == nil, l == int64(len(n.m.ents))))
+		case 2:
+			vTrace("VisitItemsAscendBlockEx")
+			cnt := 0
+			err := n.c.VisitItemsAscendBlockEx(false, nil, func(i *Item, d uint64) bool { cnt++; return true })
+			vAssert("blockvisit-result", vAnd(err == nil, cnt == len(n.m.ents)))
+		}
 	case hSnapWrite:
 		k := h.pickSnap()
 		if k < 0 || len(h.snaps[k].colls) == 0 {
